@@ -827,7 +827,7 @@ class OpenAPI(Specification):
                     method.name,
                     method.method,
                     ref_template=f'#/components/schemas/{component_name_prefix}{{model}}',
-                    exclude=[method.context] if method.context else [],
+                    exclude=list(method.excluded_params),
                 ):
                     request_schema, components = result
                     if components:
